@@ -4,8 +4,27 @@ use crate::rx::unescape;
 use std::io::{self, BufRead};
 use std::panic;
 
-pub fn main(_args: &[String]) -> i32 {
+/// "ns" mode: each stdin line is "<namespace>\u{1f}<suffix>" (escaped); prints "1" if Namespace::new(ns) succeeds and
+/// ns.get(suffix) is Ok, "0" if get() is Err, "n/a" if the namespace itself is rejected.
+fn ns_mode() -> i32 {
+    for line in io::stdin().lock().lines() {
+        let s = unescape(&line.unwrap());
+        let mut it = s.splitn(2, '\u{1f}');
+        let ns = it.next().unwrap_or("").to_string();
+        let suffix = it.next().unwrap_or("").to_string();
+        match sophia_api::ns::Namespace::new(ns.as_str()) {
+            Err(_) => println!("n/a"),
+            Ok(n) => println!("{}", if n.get(&suffix).is_ok() { 1 } else { 0 }),
+        }
+    }
+    0
+}
+
+pub fn main(args: &[String]) -> i32 {
     panic::set_hook(Box::new(|_| {}));
+    if args.first().map(String::as_str) == Some("ns") {
+        return ns_mode();
+    }
     for line in io::stdin().lock().lines() {
         let s = unescape(&line.unwrap());
         let iri_ok = sophia_iri::Iri::new(s.as_str()).is_ok();
